@@ -275,3 +275,136 @@ func Tags(s Scn, out string) []string {
 	}
 	return t
 }
+
+// Scripted builds "mostly successful" histories — rollout to Available/Succeeded, pause and
+// un-pause, handover to a second revision, archival / deletion — and then perturbs them (dropped,
+// repeated and swapped steps, a few third-party operations).  Random() alone rarely gets a
+// revision to Available, so the interesting transitions after that would stay unexplored.
+func Scripted(r *rand.Rand, delegated bool) Scn {
+	s := Scn{Cluster: r.Intn(5) == 0}
+	objNS := ""
+	if s.Cluster {
+		objNS = "ns1"
+	}
+	mk := func(name, payload string) verifphase.PObj {
+		return verifphase.PObj{Kind: "NsThing", NS: objNS, Name: name, CP: "Prevent", Payload: payload, DryRun: "accept"}
+	}
+	class := func(i int) string {
+		if delegated && (i == 0 || r.Intn(3) == 0) {
+			return "default"
+		}
+		return ""
+	}
+	two := r.Intn(2) == 0
+	os1 := SetSpec{Name: "os1", Phases: []PhaseSpec{{Name: "p1", Class: class(0), Objects: []verifphase.PObj{mk("a", "x")}}, {Name: "p2", Class: class(1), Objects: []verifphase.PObj{mk("b", "x")}}}}
+	s.Sets = []SetSpec{os1}
+	if two {
+		os2 := SetSpec{Name: "os2", Previous: []string{"os1"}, Phases: []PhaseSpec{{Name: "p1", Class: class(0), Objects: []verifphase.PObj{mk("a", pick(r, []string{"x", "y"}))}}, {Name: "p2", Class: class(1), Objects: []verifphase.PObj{mk("b", "x"), mk("c", "x")}}}}
+		s.Sets = append(s.Sets, os2)
+	}
+	ready := func(name string) Step {
+		return Step{Op: "env", Env: []verifphase.EnvOp{{Op: "setReady", Kind: "NsThing", NS: "ns1", Name: name, Ready: true, ObsGen: -1}}}
+	}
+	var ideal []Step
+	rollout := func(sp SetSpec) {
+		ideal = append(ideal, Step{Op: "reconcile", Set: sp.Name})
+		for _, ph := range sp.Phases {
+			if ph.Class != "" {
+				pn := sp.Name + "-" + ph.Name
+				ideal = append(ideal, Step{Op: "reconcile", Set: sp.Name}, Step{Op: "phase", Set: pn})
+				for _, o := range ph.Objects {
+					ideal = append(ideal, ready(o.Name))
+				}
+				ideal = append(ideal, Step{Op: "phase", Set: pn}, Step{Op: "reconcile", Set: sp.Name})
+			} else {
+				ideal = append(ideal, Step{Op: "reconcile", Set: sp.Name})
+				for _, o := range ph.Objects {
+					ideal = append(ideal, ready(o.Name))
+				}
+				ideal = append(ideal, Step{Op: "reconcile", Set: sp.Name})
+			}
+		}
+		ideal = append(ideal, Step{Op: "reconcile", Set: sp.Name})
+	}
+	touchPhases := func(sp SetSpec) {
+		for _, ph := range sp.Phases {
+			if ph.Class != "" {
+				ideal = append(ideal, Step{Op: "phase", Set: sp.Name + "-" + ph.Name})
+			}
+		}
+	}
+	pauseCycle := func(sp SetSpec) {
+		ideal = append(ideal, Step{Op: "lifecycle", Set: sp.Name, Value: "Paused"}, Step{Op: "reconcile", Set: sp.Name})
+		touchPhases(sp)
+		ideal = append(ideal, Step{Op: "reconcile", Set: sp.Name})
+		if r.Intn(2) == 0 { // something regresses while paused
+			ideal = append(ideal, Step{Op: "env", Env: []verifphase.EnvOp{{Op: "setReady", Kind: "NsThing", NS: "ns1", Name: pick(r, []string{"a", "b"}), Ready: false, ObsGen: -1}}})
+			if r.Intn(2) == 0 {
+				touchPhases(sp)
+			}
+		}
+		ideal = append(ideal, Step{Op: "lifecycle", Set: sp.Name, Value: "Active"}, Step{Op: "reconcile", Set: sp.Name})
+		if r.Intn(2) == 0 {
+			touchPhases(sp)
+			ideal = append(ideal, Step{Op: "reconcile", Set: sp.Name})
+		}
+	}
+	end := func(sp SetSpec) {
+		if r.Intn(2) == 0 {
+			ideal = append(ideal, Step{Op: "lifecycle", Set: sp.Name, Value: "Archived"})
+		} else {
+			ideal = append(ideal, Step{Op: "delete", Set: sp.Name, Orphan: r.Intn(5) == 0})
+		}
+		for i := 0; i < 3; i++ {
+			ideal = append(ideal, Step{Op: "reconcile", Set: sp.Name})
+			touchPhases(sp)
+		}
+		ideal = append(ideal, Step{Op: "reconcile", Set: sp.Name})
+	}
+	rollout(os1)
+	if r.Intn(2) == 0 {
+		pauseCycle(os1)
+	}
+	if two {
+		rollout(s.Sets[1])
+		if r.Intn(3) == 0 {
+			pauseCycle(s.Sets[1])
+		}
+		if r.Intn(3) != 0 {
+			end(os1)
+		}
+		ideal = append(ideal, Step{Op: "reconcile", Set: "os2"})
+	} else if r.Intn(2) == 0 {
+		end(os1)
+	}
+	// perturb
+	names := []string{"a", "b", "c"}
+	for _, st := range ideal {
+		x := r.Intn(100)
+		switch {
+		case x < 8: // dropped
+		case x < 14: // repeated
+			s.Steps = append(s.Steps, st, st)
+		case x < 18: // third-party operation first
+			e := verifphase.EnvOp{Kind: "NsThing", NS: "ns1", Name: pick(r, names), ObsGen: -1}
+			e.Op = pick(r, []string{"setReady", "setPayload", "delete", "reown", "setRev"})
+			switch e.Op {
+			case "setReady":
+				e.Ready = r.Intn(2) == 0
+				e.ObsGen = int64(r.Intn(4)) - 1
+			case "setPayload":
+				e.Payload = "drift"
+			case "setRev":
+				e.Rev = pick(r, verifphase.RevClasses)
+			}
+			s.Steps = append(s.Steps, Step{Op: "env", Env: []verifphase.EnvOp{e}}, st)
+		default:
+			s.Steps = append(s.Steps, st)
+		}
+	}
+	if len(s.Steps) > 1 && r.Intn(4) == 0 { // one swap
+		i := r.Intn(len(s.Steps) - 1)
+		s.Steps[i], s.Steps[i+1] = s.Steps[i+1], s.Steps[i]
+	}
+	return s
+}
